@@ -82,7 +82,7 @@ def classOf (g : String) : Option GClass :=
           "variable_index_offset"] then some .frame
   else if g ∈ ["command_giver", "current_error_context", "csp", "sp", "num_objects_this_thread", "restrict_destruct",
                "last_verb"] then some .context
-  else if g ∈ ["in_error", "in_mudlib_error_handler", "error_state", "catch_value"] then some .handler
+  else if g ∈ ["in_error", "in_mudlib_error_handler", "mudlib_error_handler_context", "error_state", "catch_value"] then some .handler
   else if g ∈ ["current_interactive"] then some .loop
   else if g ∈ ["cgsp", "command_giver_stack", "command_giver_held"] then some .balanced
   else if g ∈ ["num_varargs", "st_num_arg", "call_origin", "apply_ret_value", "global_lvalue_byte", "global_lvalue_range",
@@ -113,6 +113,12 @@ theorem tie_callback_handlers :
 /-- catch_value is a global that every catch() run by the master's error handler overwrites: error_handler assigns the
     message to it only after that handler has returned (the model's `raise`: `runHandler … true`, THEN `catchValue := .msg msg`) -/
 theorem tie_catch_value_order : Gen.C05.errorHandlerSetsCatchValueAfterHandler = true := by decide
+
+/-- an error raised inside the master's handler clears "in the mudlib error handler" only when it is delivered to the
+    context that was current at the handler's entry.  The model's handler (`runHandlerN`) never saves a context of its own,
+    so in the model every second-level error abandons the handler and `raiseInner` / `raise` clear the flag
+    unconditionally; handlers that run catch() themselves are exercised on the real driver (`b-handler-script-*`). -/
+theorem tie_handler_flag : Gen.C05.errorHandlerKeepsFlagInsideHandler = true := by decide
 
 /-- the model's `raise` sets catch_value after the handler, in the state the handler returned -/
 theorem raise_sets_catch_value_after_handler (msg : String) (m m' : M)
